@@ -139,9 +139,15 @@ def check_problem_turnover(h: Harness):
         rep = StubRep(1)
         inds = [Individual((i, v, (v,)), rep) for i, v in enumerate(vals)]
         first_min = rng.random() < 0.5
+        # every other trial: ONE fitness function object shared by the problems, which all stay alive (a maximising and a
+        # minimising problem over the same function are different problems)
+        shared = (lambda p: p[1]) if trial % 2 == 1 else None
+        alive = []
         for stage in range(3):
             minimize = first_min if stage % 2 == 0 else not first_min
-            problem = SingleObjectiveProblem(lambda p: p[1], minimize=minimize)
+            problem = SingleObjectiveProblem(shared or (lambda p: p[1]), minimize=minimize)
+            if shared is not None:
+                alive.append(problem)
             k = rng.randint(1, n - 1)
             res = sc.run_step(ElitismStep(), problem, rep, TwoStreamSource([]), list(inds), k)
             pop = [[i, (-v if minimize else v), [v]] for i, v in enumerate(vals)]
@@ -153,10 +159,56 @@ def check_problem_turnover(h: Harness):
             else:
                 out = [[i.genotype[0], (-i.genotype[1] if minimize else i.genotype[1]), [i.genotype[1]]] for i in res]
                 h.holds("ElitismStep.apply", "not-top-k", ["prop_topk", pop, k, out],
-                        f"stage {stage + 1} of 3 on the same individuals (values {vals}), each stage under a NEW SingleObjectiveProblem(minimize={minimize}) created "
-                        f"after the previous one was dropped: the elite of {k} has values {[i.genotype[1] for i in res]}", replay)
+                        f"stage {stage + 1} of 3 on the same individuals (values {vals}), each stage under a NEW SingleObjectiveProblem(minimize={minimize}) "
+                        + ("over the SAME fitness function object as the earlier problems, which are still alive" if shared is not None else
+                           "created after the previous one was dropped") + f": the elite of {k} has values {[i.genotype[1] for i in res]}", replay)
             del problem
             gc.collect()
+
+
+def _slow_first(p):
+    """fitness of uneven cost: the individuals with id 0 and 1 take longest, so that pool workers finish out of order"""
+    import time
+    if p[0] <= 1:
+        time.sleep(0.25 - 0.1 * p[0])
+    return p[1]
+
+
+def check_parallel_evaluator(h: Harness):
+    """the elitism step evaluates what it is given with the evaluator it is handed: with the parallel evaluator, on pools
+    that are unevaluated or partly evaluated and a fitness function of uneven cost, the elite must be the best by the fitness the
+    problem assigns to each program"""
+    from geneticengine.evaluation.parallel import ParallelEvaluator
+    rng = h.rng
+    for trial, (kind, pre) in enumerate([("max", lambda n, j: False), ("min", lambda n, j: j % 2 == 0), ("max", lambda n, j: j < n // 2)]):
+        n = rng.randint(6, 8)
+        vals = rng.sample(range(-9, 10), n)
+        rep = StubRep(1)
+        minimize = kind == "min"
+        problem = SingleObjectiveProblem(_slow_first, minimize=minimize)
+        inds = [Individual((i, v, (v,)), rep) for i, v in enumerate(vals)]
+        ev = ParallelEvaluator()
+        already = [i for j, i in enumerate(inds) if pre(n, j)]
+        if already:
+            ev.evaluate(problem, already)
+        k = rng.randint(1, n - 1)
+        replay = {"values": vals, "k": k, "direction": kind, "pre_evaluated": [i.genotype[0] for i in already]}
+        h.count("elitism:parallel-evaluator")
+        h.seen(f"parallel-elitism:{trial}", nontrivial=True)
+        try:
+            res = list(ElitismStep().apply(problem, ev, rep, TwoStreamSource([]), list(inds), k, 1))
+        except Exception as e:  # noqa: BLE001
+            h.fail("ElitismStep.apply", "raises", f"ElitismStep with ParallelEvaluator on values {vals}: {type(e).__name__}: {e}", replay)
+            continue
+        pop = [[i, (-v if minimize else v), [v]] for i, v in enumerate(vals)]
+        out = [[i.genotype[0], (-i.genotype[1] if minimize else i.genotype[1]), [i.genotype[1]]] for i in res]
+        h.holds("ElitismStep.apply", "not-top-k", ["prop_topk", pop, k, out],
+                f"ElitismStep.apply [{kind}] with the ParallelEvaluator on individuals with values {vals} (pre-evaluated: {replay['pre_evaluated']}; the "
+                f"fitness function takes longest on the first two), target_size={k}: the elite has values {[i.genotype[1] for i in res]}", replay)
+        stored = [i.get_fitness(problem).fitness_components[0] for i in inds]
+        if stored != [float(v) for v in vals]:
+            h.fail("ElitismStep.apply", "ranks-by-fitness-of-another-individual",
+                   f"after ElitismStep with the ParallelEvaluator the individuals with values {vals} carry the fitness values {stored}", replay)
 
 
 def check_infinite_fitness(h: Harness):
@@ -347,6 +399,7 @@ def check_elitism_beside_other_branches(h: Harness):
 
 
 def run(h: Harness):
+    check_parallel_evaluator(h)
     check_elitism_beside_other_branches(h)
     check_elitism(h)
     check_infinite_fitness(h)
